@@ -10,6 +10,11 @@ tree) is driven through histories by scripted observers; its trace is
      after de-registration) - once as libcoap defines the RST rule, once as the property states it;
   O: checked by implementation-only oracles (body = latest application state, session alive and
      referenced while it has observers, the I/O loop looks at the observers on every turn).
+(3) real libcoap clients (coap_send with Observe, coap_cancel_observe, applications that forget an
+observation and reset what arrives) observe the same server through a FIFO network with loss;
+oracles on the clients' response-handler log: Observe order = order of the application states,
+after a loss-free closing phase every registered observer has heard the latest state and nobody who
+cancelled / reset is still registered, no notification to an observer after the server deleted it.
 """
 import re
 import vlib
@@ -224,7 +229,7 @@ def main(run):
     drv = vlib.build_driver("h_observe", ["h_observe.c"], wraps=G.WRAPS)
     r = tie.rng_for(run, "c11")
     n = 5000 if run.tier == "quick" else 120000
-    lines = list(vlib.read_corpus("C11"))
+    lines = [ln for ln in vlib.read_corpus("C11") if ln.startswith("c11 ")]
     kinds = ["corpus"] * len(lines)
     for i in range(n):
         prof = None
@@ -303,6 +308,45 @@ def main(run):
                  getattr(sv, "model_out", "")))
         concrete = v.kind in ("acceptor", "oracle", "strict", "crash")
         run.violation(v.what, text, tag="%s%d" % (v.kind, nbad[v.kind]), no_input=not concrete)
+    # ---- real libcoap clients behind a lossy FIFO network (implementation-only oracles)
+    rc = tie.rng_for(run, "c11r")
+    nc = 700 if run.tier == "quick" else 20000
+    clines = [ln for ln in vlib.read_corpus("C11") if ln.startswith("c11r ")]
+    clines += [G.gen_client_case(rc) for _ in range(nc)]
+    couts, ccr = vlib.run_lines_robust(drv, clines, timeout=1800)
+    run.cov["client_histories"] = len(clines)
+    run.cov["client_driver_crashes"] = len(ccr)
+    tot = {"handler_calls": 0, "notifications": 0, "registered_at_end": 0}
+    for i, (ln, out) in enumerate(zip(clines, couts)):
+        ok, what, st = G.judge_client(ln, out)
+        run.count(ln, ok and st.get("handler_calls", 0) >= 4)
+        run.hist("source", "real_clients")
+        for k in tot:
+            tot[k] += st.get(k, 0)
+        if i % 300 == 7 and ok:
+            run.sample({"case": ln[:300], "impl_trace": out[:500]})
+        if ok:
+            continue
+        nbad["client"] = nbad.get("client", 0) + 1
+        if nbad["client"] > 2:
+            continue
+        toks = ln.split()
+
+        def still(prefix, cand):
+            l2 = " ".join(prefix + [c[0] for c in cand])
+            o2, _ = vlib.run_lines_robust(drv, [l2], timeout=300)
+            return not G.judge_client(l2, o2[0])[0]
+        try:
+            small = " ".join(toks[:7] + [c[0] for c in
+                                         tie.shrink_ops(toks[:7], [[o] for o in toks[7:]], still, max_steps=200)])
+        except Exception:
+            small = ln
+        o2, _ = vlib.run_lines_robust(drv, [small], timeout=300)
+        ok2, what2, _ = G.judge_client(small, o2[0])
+        run.violation("real libcoap client: " + (what2 or what),
+                      "case: %s\nwhat: %s\nimplementation trace: %s\nreplay: echo '<case>' | .build/obj/base/h_observe\n"
+                      % (small, what2 or what, o2[0]), tag="client%d" % nbad["client"])
+    run.cov["client_totals"] = tot
     run.cov["failures_by_class"] = nbad
     if consts is not None:
         run.cov["constants_from_build"] = consts
